@@ -254,8 +254,32 @@ def run(seed=0, tier='quick', hints=None, broken=False):
             if bad:
                 viol.append({'site': 'C20:%s:%s' % (kind, bad[0]), 'case': jsonable(case), 'observed': str(bad[1])[:300],
                              'expected': str(bad[2])[:300]})
+    # thin volumes, systematically: every set of one or two extent-1 axes x channel layout x mask drop / fill value
+    # (an axis of extent 1 is where squeezing, broadcasting and (H, W, D, 1) drop masks go wrong)
+    for thin in ((0,), (1,), (2,), (0, 1), (1, 2), (0, 2)):
+        for ch in (None, 2, 3):
+            for mval in (None, 6):
+                for kind in ('pixel', 'coarse'):
+                    case = gen_case(rng, kind)
+                    for a in thin:
+                        case['shape'][a] = 1
+                    case['channels'] = ch
+                    if kind == 'pixel':
+                        case['kw'].pop('per_channel', None)
+                        case['kw']['mask_drop_value'] = mval
+                        case['kw']['dropout_prob'] = rng.choice([0.3, 0.6])
+                    else:
+                        H, W, D = case['shape']
+                        case['kw'] = dict(max_holes=rng.randint(1, 3), max_height=rng.randint(1, H), max_width=rng.randint(1, W),
+                                          max_depth=rng.randint(1, D), fill_value=3, mask_fill_value=mval)
+                    bad = CHECK[kind](case)
+                    evals += 1
+                    seen.add((kind, 'thin', thin, ch, mval))
+                    if bad:
+                        viol.append({'site': 'C20:%s:%s' % (kind, bad[0]), 'case': jsonable(case), 'observed': str(bad[1])[:300],
+                                     'expected': str(bad[2])[:300]})
     return {'violations': viol, 'info': {'evaluations': evals, 'distinct': len(seen),
-                                         'what': 'outputs vs recorded holes / drop masks; limits; keypoints on hole faces'}}
+                                         'what': 'outputs vs recorded holes / drop masks; limits; keypoints on hole faces; thin volumes (every one / two extent-1 axes x channels x mask value)'}}
 
 
 def replay(v):
